@@ -55,6 +55,9 @@ fn nest_depth(key: &str) -> usize {
 	d
 }
 
+/// rotations of the insertion order tried on every initial state (besides sorted and reversed)
+const MAX_ROTATIONS: usize = 4;
+
 #[derive(Clone, Copy, Debug, PartialEq, Eq, Hash)]
 enum Op {
 	Extend,
@@ -162,16 +165,17 @@ fn ref_extend(set: &MSet, ns: usize) -> Expectation {
 }
 
 fn ref_contract(set: &MSet, ns: usize) -> Expectation {
+	// "contraction keeps only the innermost simple name": of every name in the chosen column, whatever the
+	// class is called in the first namespace (the statement ties *extension* to the source nesting, not
+	// contraction). A name without a valid cut (no `$` in its last section, or an empty side) has no inner
+	// part and stays whole — the inverse law needs that for top-level names in packages.
 	let mut e = Expectation { must_err: None, may_err: None, accept: BTreeMap::new() };
 	for (key, c) in &set.classes {
-		let nested = ref_split(key).is_some();
 		let acc = match &c.names[ns] {
 			None => vec![None],
-			Some(t) => match (ref_split(t), nested) {
-				(Some((_, s)), true) => vec![Some(s.to_owned())],
-				// a top-level class whose name contains `$`: the statement can be read either way
-				(Some((_, s)), false) => vec![Some(t.clone()), Some(s.to_owned())],
-				(None, _) => vec![Some(t.clone())],
+			Some(t) => match ref_split(t) {
+				Some((_, s)) => vec![Some(s.to_owned())],
+				None => vec![Some(t.clone())],
 			},
 		};
 		e.accept.insert(key.clone(), Some(acc));
@@ -208,6 +212,7 @@ fn real(set: &MSet, op: Op, ns_name: &str, order: Order) -> Result<RealOut, vcor
 	vcore::guard(|| match set.n() {
 		2 => real_n::<2>(set, op, ns_name, order),
 		3 => real_n::<3>(set, op, ns_name, order),
+		4 => real_n::<4>(set, op, ns_name, order),
 		n => vcore::machinery_fail(&format!("unsupported namespace count {n}")),
 	})
 }
@@ -216,7 +221,9 @@ fn real(set: &MSet, op: Op, ns_name: &str, order: Order) -> Result<RealOut, vcor
 // judging one transition
 
 fn replay_text(set: &MSet, act: Act, extra: &str) -> String {
-	format!("action={}\nstate:\n{}--end-state--\n{}", act.text(), tiny::print(set), extra)
+	// the Tiny text has no place for the comment of the set itself: it travels on a line of its own
+	let doc = set.doc.as_ref().map_or(String::new(), |d| format!("set-comment={}\n", tiny::escape(d)));
+	format!("action={}\n{doc}state:\n{}--end-state--\n{}", act.text(), tiny::print(set), extra)
 }
 
 /// Runs one action of the real code on `set`, judges it, returns the successor (projection of the real result).
@@ -305,14 +312,65 @@ fn step(ctx: &Ctx, st: &mut Stats, set: &MSet, act: Act, also_reversed: bool) ->
 		if let Some(acc) = &exp.accept[k] {
 			if !acc.contains(got) {
 				let nested = ref_split(k).is_some();
+				let looks_nested = b.names[ns].as_deref().is_some_and(|t| ref_split(t).is_some());
 				let site = match (act.op, nested, &b.names[ns]) {
 					(_, _, None) => "absent-name-filled",
 					(Op::Extend, false, _) => "top-level-renamed",
 					(Op::Extend, true, _) => "wrong-extended-name",
+					// a nested name in the chosen column of a class that is top-level in the first namespace
+					(Op::Contract, false, _) if looks_nested && got == &b.names[ns] => "nested-name-of-top-level-source-kept",
+					(Op::Contract, false, _) if looks_nested => "nested-name-of-top-level-source-wrong",
 					(Op::Contract, false, _) => "top-level-wrong-name",
 					(Op::Contract, true, _) => "wrong-contracted-name",
 				};
 				ctx.diff(&format!("{opn}:{site}"), &format!("class {k:?}: name in namespace {ns} was {:?}, is now {:?}, the statement allows {:?}", b.names[ns], got, acc), || replay_text(set, act, &shown(&after)));
+			}
+		}
+		// witnesses that the interesting inputs really went through the real code (vacuity floors)
+		if let (Some(t), Some(g)) = (&b.names[ns], got) {
+			let multibyte = t.len() != t.chars().count();
+			match act.op {
+				Op::Contract => {
+					if ref_split(k).is_none() && ref_split(t).is_some() && g != t {
+						st.outcome("contract:cut-nested-name-of-top-level-source");
+					}
+					if ref_split(t).is_none() && t.contains('$') && g == t {
+						let only_in_package = !t[t.rfind('/').map_or(0, |i| i)..].contains('$');
+						st.outcome(if only_in_package { "contract:kept-name-with-dollar-in-package-only" } else { "contract:kept-name-with-unsplittable-dollar" });
+					}
+					if nest_depth(t) >= 2 && g != t {
+						st.outcome("contract:cut-name-nested>=2");
+					}
+					if multibyte && g != t {
+						st.outcome("contract:cut-name-with-multibyte-character");
+					}
+				},
+				Op::Extend => {
+					if let Some((outer, own)) = ref_split(k) {
+						if g != t {
+							if set.classes.get(outer).is_some_and(|o| o.names[ns].as_deref() == Some(outer)) {
+								st.outcome("extend:through-outer-that-keeps-its-source-name");
+							}
+							if t == own {
+								st.outcome("extend:class-named-like-its-source-simple-name");
+							}
+							if t == k {
+								st.outcome("extend:class-named-like-its-whole-source-name");
+							}
+							if multibyte {
+								st.outcome("extend:rewrote-name-with-multibyte-character");
+							}
+							if k.contains('/') && nest_depth(k) >= 2 {
+								st.outcome("extend:rewrote-packaged-class-nested>=2");
+							}
+							if k[..k.rfind('/').map_or(0, |i| i)].contains('$') {
+								st.outcome("extend:rewrote-class-with-dollar-in-source-package");
+							}
+						}
+					} else if (t.contains('$') || k.contains('$')) && g == t {
+						st.outcome("extend:kept-top-level-class-with-dollar-in-a-name");
+					}
+				},
 			}
 		}
 		// consistency: a nested class's extended name starts with the extended name of its outer class
@@ -337,6 +395,9 @@ fn step(ctx: &Ctx, st: &mut Stats, set: &MSet, act: Act, also_reversed: bool) ->
 		if deepest_changed >= 3 {
 			st.outcome("extend:rewrote-class-nested>=3");
 		}
+		if deepest_changed >= 4 {
+			st.outcome("extend:rewrote-class-nested>=4");
+		}
 		st.sample("extend-deep", || json!({"kind": "transition", "action": act.text(), "state": tiny::print(set), "result": tiny::print(&after)}));
 	}
 	if act.op == Op::Contract && changed > 0 {
@@ -350,6 +411,19 @@ fn step(ctx: &Ctx, st: &mut Stats, set: &MSet, act: Act, also_reversed: bool) ->
 			Ok(other) => ctx.diff(&format!("{opn}:depends-on-insertion-order"), &format!("classes inserted in reverse order give {:?}", other.map(|r| r.map(|m| tiny::print(&m)))), || replay_text(set, act, &shown(&after))),
 			Err(p) => ctx.diff(&format!("{opn}:panic@{}", p.file()), &format!("{opn} panicked at {}: {}", p.site, p.msg), || replay_text(set, act, "classes inserted in reverse order")),
 		}
+		// … nor where the walk over the classes starts (rotations of the sorted order: an inner class first and
+		// its outer classes later, an unrelated class in between, …)
+		for rot in 1..set.classes.len().min(MAX_ROTATIONS + 1) {
+			st.eval();
+			match real(set, act.op, &set.ns[ns], Order::Rotated(rot)) {
+				Ok(Ok(Ok(r))) if r == after => st.outcome("order:same-result-rotated"),
+				Ok(other) => ctx.diff(&format!("{opn}:depends-on-insertion-order"), &format!("classes inserted in sorted order rotated by {rot} give {:?}", other.map(|r| r.map(|m| tiny::print(&m)))), || replay_text(set, act, &shown(&after))),
+				Err(p) => ctx.diff(&format!("{opn}:panic@{}", p.file()), &format!("{opn} panicked at {}: {}", p.site, p.msg), || replay_text(set, act, &format!("classes inserted in sorted order rotated by {rot}"))),
+			}
+		}
+	}
+	if set.doc.is_some() {
+		st.outcome(&format!("{opn}:ok-on-set-with-comment"));
 	}
 	// the inverse law
 	if act.op == Op::Extend && exp.must_err.is_none() && names_simple(set, ns) {
@@ -388,28 +462,79 @@ const KEYS_THOROUGH_EXTRA: &[(&str, &str)] = &[("A$", "Ae"), ("$A", "Ea"), ("A$$
 /// top-level class with that name. The target namespace is not required to be injective, and anything the
 /// implementation keys by *target* name instead of source name shows here and nowhere else.
 const KEYS_SHARED: &[(&str, &str)] = &[("A", "Aa"), ("A$B", "S"), ("A$B$C", "Cc"), ("X", "Xx"), ("X$B", "S"), ("X$B$C", "Cd"), ("S", "S")];
-const KIND_NAMES: &[&str] = &["absent", "simple", "already-extended"];
+/// The complete range of the quantifier's nesting depth, 0..4, in one chain. The simple target names carry
+/// characters of two and three bytes on both sides of every `$` an extension inserts.
+const KEYS_DEEP: &[(&str, &str)] = &[("A", "Aä"), ("A$B", "Bé"), ("A$B$C", "C€"), ("A$B$C$D", "Dö"), ("A$B$C$D$E", "Eü")];
+/// Outer classes in packages of several sections, nested two levels; a package section that contains a `$`
+/// (never a nesting: `d$e/A` is top-level, `d$e/A$B` is nested in it); top-level classes whose simple name
+/// begins or ends with the only `$` of the name.
+const KEYS_PACKAGES: &[(&str, &str)] = &[("p/q/A", "r/s/Pa"), ("p/q/A$B", "Pb"), ("p/q/A$B$C", "Pc"), ("d$e/A", "f$g/Da"), ("d$e/A$B", "Db"), ("p/q/$Z", "r/Zl"), ("p/q/Z$", "r/Zt")];
+/// Source names whose `$` is not a nesting (`A$`, `$A`: an empty side) next to ones where it is (`A$$B` is
+/// nested in `A$`; `A$B` in `A`).
+const KEYS_EDGE: &[(&str, &str)] = &[("A", "Aa"), ("A$", "Ae"), ("$A", "Ea"), ("A$$B", "Eb"), ("A$B", "Bb"), ("A$$B$C", "Ec")];
+/// Two chains whose names cross: the target name of a class may be the *source* name of the corresponding
+/// class of the other chain (kind `Swap`), or its own source name.
+const KEYS_CROSS: &[(&str, &str)] = &[("A", "Aa"), ("A$B", "Bb"), ("A$B$C", "Cc"), ("X", "Xx"), ("X$B", "Yb"), ("X$B$C", "Yc")];
+
+/// What a class is called in one non-first namespace.
+#[derive(Clone, Copy, Debug, PartialEq, Eq)]
+enum Kind {
+	/// no name
+	Absent,
+	/// `<base><j>`
+	Simple,
+	/// as many `Oo<j>$Pp<j>$…` in front of the simple name as the source name is nested (at least one)
+	Extended,
+	/// the source name itself, in every namespace
+	Identity,
+	/// `Uu<j>$Vv<j>$<simple>`: nested two levels, however the source name is nested
+	Deep,
+	/// `k$l/<simple>`: the only `$` sits in a package section, the name is not a nested one
+	DollarPkg,
+	/// `<simple>$`: ends with its only `$`, not a nested name
+	TrailDollar,
+	/// the source name of the corresponding class of the other chain (`A…` <-> `X…`)
+	Swap,
+}
+
+const KINDS_BASE: &[Kind] = &[Kind::Absent, Kind::Simple, Kind::Extended];
 
 struct Alphabet {
+	label: &'static str,
 	ns: Vec<String>,
+	kinds: Vec<Kind>,
+	/// the comment of the set itself
+	doc: Option<String>,
 	keys: Vec<(String, String)>,
 	/// decorated class templates (row filled in later)
 	templates: Vec<MClass>,
 	rejected: Vec<String>,
 }
 
-fn target(base: &str, key: &str, j: usize, kind: usize) -> Option<String> {
+fn target(base: &str, key: &str, j: usize, kind: Kind) -> Option<String> {
+	let (pkg, simple) = match base.rfind('/') {
+		Some(i) => (&base[..=i], &base[i + 1..]),
+		None => ("", base),
+	};
 	match kind {
-		0 => None,
-		1 => Some(format!("{base}{j}")),
-		_ => {
+		Kind::Absent => None,
+		Kind::Simple => Some(format!("{base}{j}")),
+		Kind::Extended => {
 			let levels = nest_depth(key).max(1);
-			let prefix: String = ["Oo", "Pp", "Qq"][..levels].iter().map(|p| format!("{p}{j}$")).collect();
-			let (pkg, simple) = match base.rfind('/') {
-				Some(i) => (&base[..=i], &base[i + 1..]),
-				None => ("", base),
-			};
+			let prefix: String = ["Oo", "Pp", "Qq", "Rr"][..levels].iter().map(|p| format!("{p}{j}$")).collect();
 			Some(format!("{pkg}{prefix}{simple}{j}"))
+		},
+		Kind::Identity => Some(key.to_owned()),
+		Kind::Deep => Some(format!("{pkg}Uu{j}$Vv{j}${simple}{j}")),
+		Kind::DollarPkg => Some(format!("k$l/{simple}{j}")),
+		Kind::TrailDollar => Some(format!("{pkg}{simple}{j}$")),
+		Kind::Swap => {
+			let other = match key.as_bytes().first() {
+				Some(b'A') => "X",
+				Some(b'X') => "A",
+				_ => vcore::machinery_fail("kind Swap needs class keys that begin with A or X"),
+			};
+			Some(format!("{other}{}", &key[1..]))
 		},
 	}
 }
@@ -420,19 +545,21 @@ impl Alphabet {
 		if tier == vcore::Tier::Thorough {
 			all.extend(KEYS_THOROUGH_EXTRA);
 		}
-		Alphabet::with_keys(n, all)
+		Alphabet::with_keys(if n == 2 { "base N=2" } else { "base N=3" }, n, all, KINDS_BASE, None)
 	}
 
-	fn with_keys(n: usize, all: Vec<(&str, &str)>) -> Alphabet {
-		let ns: Vec<String> = if n == 2 { vec!["official".into(), "named".into()] } else { vec!["a".into(), "b".into(), "c".into()] };
+	fn with_keys(label: &'static str, n: usize, all: Vec<(&str, &str)>, kinds: &[Kind], doc: Option<&str>) -> Alphabet {
+		let ns: Vec<String> = if n == 2 { vec!["official".into(), "named".into()] } else { ["a", "b", "c", "d"][..n].iter().map(|s| s.to_string()).collect() };
 		let mut keys = Vec::new();
 		let mut rejected = Vec::new();
 		for (k, b) in all {
 			// names duke rejects are skipped (and reported in the evidence)
 			let mut ok = mapmodel::cls(k).is_ok();
 			for j in 1..n {
-				for kind in 1..3 {
-					ok &= mapmodel::cls(&target(b, k, j, kind).unwrap()).is_ok();
+				for &kind in kinds {
+					if let Some(t) = target(b, k, j, kind) {
+						ok &= mapmodel::cls(&t).is_ok();
+					}
 				}
 			}
 			if ok {
@@ -464,6 +591,12 @@ impl Alphabet {
 				"A$B$C$D" => {
 					c.fields.insert(("g".into(), "[LA$B$C$D;".into()), MField { names: row(Some("g"), "gD", None), doc: None });
 				},
+				"A$B$C$D$E" => {
+					c.doc = Some("innermost: A$B$C$D$E".into());
+					let mut m = MMethod { names: row(Some("A$B$C$D$E"), "E$", None), doc: None, params: BTreeMap::new() };
+					m.params.insert(1, MParam { names: row(Some("A$B"), "A$B", None), doc: None });
+					c.methods.insert(("A$B$C$D$E".into(), "(ILA$B$C$D;)LA$B$C$D$E;".into()), m);
+				},
 				"p/A" => {
 					c.methods.insert(("<init>".into(), "(Lp/A$B;)V".into()), MMethod { names: vec![Some("<init>".into()); n], doc: None, params: BTreeMap::new() });
 				},
@@ -478,11 +611,20 @@ impl Alphabet {
 				"A$$B" => {
 					c.fields.insert(("e".into(), "LA$;".into()), MField { names: row(Some("e"), "eB", None), doc: None });
 				},
+				"p/q/A$B" => {
+					// members called like nested classes: nothing below the class level is a class name
+					c.fields.insert(("A$B".into(), "Lp/q/A$B$C;".into()), MField { names: row(Some("A$B"), "A$B", None), doc: Some("p/q/A$B".into()) });
+				},
+				"p/q/A$B$C" => c.doc = Some("p/q/A$B$C".into()),
+				"d$e/A$B" => {
+					c.methods.insert(("m$n".into(), "(Ld$e/A;)Ld$e/A$B;".into()), MMethod { names: row(Some("m$n"), "m$n", None), doc: Some("d$e".into()), params: BTreeMap::new() });
+				},
+				"p/q/$Z" => c.doc = Some("$".into()),
 				_ => {},
 			}
 			c
 		}).collect();
-		Alphabet { ns, keys, templates, rejected }
+		Alphabet { label, ns, kinds: kinds.to_vec(), doc: doc.map(|d| d.to_owned()), keys, templates, rejected }
 	}
 
 	fn n(&self) -> usize {
@@ -491,13 +633,14 @@ impl Alphabet {
 
 	/// variants of one present class: one target kind per non-first namespace
 	fn variants(&self) -> usize {
-		3usize.pow(self.n() as u32 - 1)
+		self.kinds.len().pow(self.n() as u32 - 1)
 	}
 
 	/// the `idx`-th mapping set whose present classes are exactly `mask`
 	fn build(&self, mask: u32, mut idx: u64) -> MSet {
 		let n = self.n();
-		let mut set = MSet { ns: self.ns.clone(), doc: None, classes: BTreeMap::new() };
+		let nk = self.kinds.len();
+		let mut set = MSet { ns: self.ns.clone(), doc: self.doc.clone(), classes: BTreeMap::new() };
 		for i in (0..self.keys.len()).rev() {
 			if mask & (1 << i) == 0 {
 				continue;
@@ -508,12 +651,49 @@ impl Alphabet {
 			let mut v = (idx % self.variants() as u64) as usize;
 			idx /= self.variants() as u64;
 			for j in 1..n {
-				c.names.push(target(b, k, j, v % 3));
-				v /= 3;
+				c.names.push(target(b, k, j, self.kinds[v % nk]));
+				v /= nk;
 			}
 			set.classes.insert(k.clone(), c);
 		}
 		set
+	}
+
+	/// every name that can stand in a set of this alphabet
+	fn names(&self) -> Vec<String> {
+		let mut v = Vec::new();
+		for (k, b) in &self.keys {
+			v.push(k.clone());
+			for j in 1..self.n() {
+				for &kind in &self.kinds {
+					v.extend(target(b, k, j, kind));
+				}
+			}
+		}
+		v
+	}
+}
+
+/// One explored universe: an alphabet, the sets of simultaneously present classes, the depth of the BFS.
+struct Universe {
+	alpha: Alphabet,
+	masks: Vec<u32>,
+	sets_rule: String,
+	chunk: u64,
+	depth: u8,
+}
+
+impl Universe {
+	fn all_subsets(alpha: Alphabet, chunk: u64, depth: u8) -> Universe {
+		let masks = vcore::enumerate::subsets_by_size(alpha.keys.len());
+		Universe { alpha, masks, sets_rule: "every subset of the class keys".into(), chunk, depth }
+	}
+	fn subsets_up_to(alpha: Alphabet, max: u32, chunk: u64, depth: u8) -> Universe {
+		let masks = vcore::enumerate::subsets_by_size(alpha.keys.len()).into_iter().filter(|m| m.count_ones() <= max).collect();
+		Universe { alpha, masks, sets_rule: format!("every subset of <= {max} class keys"), chunk, depth }
+	}
+	fn init_states(&self) -> u64 {
+		self.masks.iter().map(|m| (self.alpha.variants() as u64).pow(m.count_ones())).sum()
 	}
 }
 
@@ -580,29 +760,30 @@ struct GraphTotals {
 	max_depth: usize,
 }
 
-fn run_graph(ctx: &'static Ctx, alphas: &[Alphabet], plan: &[(usize, Vec<u32>, u64)], max_depth: u8) -> GraphTotals {
-	// plan: (alphabet index, sets of simultaneously present classes, chunk size)
+/// outcome counters that are also kept per universe (`<label>/<counter>`)
+const PER_UNIVERSE: &[&str] = &["extend:ok-changed", "extend:ok-changed-statement-silent-case", "contract:ok-changed", "extend:err-missing-outer", "law:contract-extend-identity-exercised"];
+
+fn run_graph(ctx: &'static Ctx, universes: &[Universe]) -> GraphTotals {
 	let mut chunks = Vec::new();
-	for (ai, masks, chunk) in plan {
-		let (ai, chunk) = (*ai, *chunk);
-		let a = &alphas[ai];
-		for &mask in masks {
-			let total = (a.variants() as u64).pow(mask.count_ones());
+	for (ui, u) in universes.iter().enumerate() {
+		for &mask in &u.masks {
+			let total = (u.alpha.variants() as u64).pow(mask.count_ones());
 			let mut start = 0;
 			while start < total {
-				let len = chunk.min(total - start);
-				chunks.push(Chunk { alpha: ai, mask, start, len });
+				let len = u.chunk.min(total - start);
+				chunks.push(Chunk { alpha: ui, mask, start, len });
 				start += len;
 			}
 		}
 	}
 	chunks.into_par_iter().map(|c| {
-		let a = &alphas[c.alpha];
-		vcore::watched(|| format!("chunk N={} mask={:b} start={} len={}", a.n(), c.mask, c.start, c.len), || {
+		let u = &universes[c.alpha];
+		let a = &u.alpha;
+		vcore::watched(|| format!("chunk universe={:?} N={} mask={:b} start={} len={}", a.label, a.n(), c.mask, c.start, c.len), || {
 			let inits: Vec<MSet> = (c.start..c.start + c.len).map(|i| a.build(c.mask, i)).collect();
 			let n_init = inits.len() as u64;
 			let stats = Arc::new(Mutex::new(Stats::new()));
-			let model = NestModel { inits, max_depth, ctx, stats: stats.clone() };
+			let model = NestModel { inits, max_depth: u.depth, ctx, stats: stats.clone() };
 			let checker = model.checker().threads(1).spawn_bfs().join();
 			if !checker.is_done() {
 				vcore::machinery_fail("stateright did not finish the state space");
@@ -612,6 +793,14 @@ fn run_graph(ctx: &'static Ctx, alphas: &[Alphabet], plan: &[(usize, Vec<u32>, u
 			}
 			let mut st = std::mem::take(&mut *stats.lock().unwrap());
 			st.outcome_n(&format!("N{}:init-states", a.n()), n_init);
+			st.outcome_n(&format!("{}/init-states", a.label), n_init);
+			st.outcome_n(&format!("{}/states", a.label), checker.unique_state_count() as u64);
+			for k in PER_UNIVERSE {
+				let v = st.get(k);
+				if v > 0 {
+					st.outcome_n(&format!("{}/{k}", a.label), v);
+				}
+			}
 			GraphTotals {
 				stats: st,
 				init_states: n_init,
@@ -632,7 +821,8 @@ fn run_graph(ctx: &'static Ctx, alphas: &[Alphabet], plan: &[(usize, Vec<u32>, u
 // ---------------------------------------------------------------------------------------------
 // duke's split / join helpers
 
-const HELPER_ALPHABET: &[char] = &['A', 'b', '$', '/'];
+/// `é` takes two bytes: an index counted in characters and used in bytes (or the other way round) goes wrong
+const HELPER_ALPHABET: &[char] = &['A', 'b', '$', '/', 'é'];
 
 fn check_helpers_on(ctx: &Ctx, st: &mut Stats, s: &str) {
 	st.eval();
@@ -668,13 +858,16 @@ fn check_helpers_on(ctx: &Ctx, st: &mut Stats, s: &str) {
 				ctx.diff("helpers:join-not-inverse-of-split", &format!("from_inner_class(split({s:?})) = {j:?}"), || format!("name={s}"));
 			}
 			st.outcome("helpers:split-some");
+			if s.len() != s.chars().count() {
+				st.outcome("helpers:split-some-with-multibyte-character");
+			}
 			st.distinct.add(s);
 			st.sample("helpers", || json!({"kind": "split", "name": s, "split": split}));
 		},
 		_ => st.outcome("helpers:split-none"),
 	}
 	// split ∘ join: joining this name (as outer) with a simple inner name and splitting again gives both back
-	for inner in ["I", "b1"] {
+	for inner in ["I", "b1", "é€"] {
 		st.eval();
 		let r = vcore::guard(|| {
 			let i = mapmodel::cls(inner).unwrap();
@@ -743,61 +936,119 @@ fn main() {
 	if let Some(path) = ctx.replay.clone() {
 		replay(ctx, &path);
 	}
-	let alphas = vec![Alphabet::new(2, ctx.tier), Alphabet::new(3, ctx.tier), Alphabet::with_keys(2, KEYS_SHARED.to_vec())];
-	let nkeys = alphas[0].keys.len();
+	let thorough = ctx.tier == vcore::Tier::Thorough;
+	let timing = std::env::var_os("C11_TIMING").is_some();
+	let only: Option<String> = std::env::var("C11_ONLY").ok();
 	let max_depth: u8 = 3;
-	// (alphabet, max simultaneously present classes, chunk size)
+	const DOC: Option<&str> = Some("comment of the whole set: A$B, p/A$B\nsecond line");
+
+	// base universes (as in the first version of the check).
 	// N=2: every subset of the class keys. N=3 (9 variants per present class): every subset of at most 3
 	// keys, the complete chain A ⊂ A$B ⊂ A$B$C ⊂ A$B$C$D, and in the thorough tier every 4-subset of the
 	// seven quick-tier keys.
-	let nquick = KEYS_QUICK.len().min(nkeys);
-	let chain: u32 = alphas[1].keys.iter().enumerate().filter(|(_, (k, _))| ["A", "A$B", "A$B$C", "A$B$C$D"].contains(&k.as_str())).map(|(i, _)| 1u32 << i).sum();
-	let masks2: Vec<u32> = vcore::enumerate::subsets_by_size(nkeys);
-	let masks3: Vec<u32> = vcore::enumerate::subsets_by_size(alphas[1].keys.len()).into_iter().filter(|m| {
-		m.count_ones() <= 3 || *m == chain || (ctx.tier == vcore::Tier::Thorough && m.count_ones() == 4 && (*m >> nquick) == 0)
-	}).collect();
-	let rule3 = ctx.tier.pick("every subset of <= 3 class keys, plus the complete chain {A, A$B, A$B$C, A$B$C$D}", "every subset of <= 3 class keys, plus every 4-subset of the first seven keys");
-	let masks_shared: Vec<u32> = vcore::enumerate::subsets_by_size(alphas[2].keys.len());
-	let plan = vec![(0usize, masks2.clone(), 256u64), (1usize, masks3.clone(), 128u64), (2usize, masks_shared.clone(), 256u64)];
-	let g = run_graph(ctx, &alphas, &plan, max_depth);
-	if std::env::var_os("C11_TIMING").is_some() { eprintln!("graph done at {:.1}s", ctx.elapsed_s()); }
-
-	let mut used: Vec<String> = Vec::new();
-	for a in &alphas {
-		for (k, b) in &a.keys {
-			used.push(k.clone());
-			for j in 1..a.n() {
-				for kind in 1..3 {
-					used.extend(target(b, k, j, kind));
-				}
-			}
-		}
+	let base2 = Universe::all_subsets(Alphabet::new(2, ctx.tier), 256, max_depth);
+	let base3 = {
+		let a = Alphabet::new(3, ctx.tier);
+		let nquick = KEYS_QUICK.len().min(a.keys.len());
+		let chain: u32 = a.keys.iter().enumerate().filter(|(_, (k, _))| ["A", "A$B", "A$B$C", "A$B$C$D"].contains(&k.as_str())).map(|(i, _)| 1u32 << i).sum();
+		let masks: Vec<u32> = vcore::enumerate::subsets_by_size(a.keys.len()).into_iter().filter(|m| {
+			m.count_ones() <= 3 || *m == chain || (thorough && m.count_ones() == 4 && (*m >> nquick) == 0)
+		}).collect();
+		let rule = ctx.tier.pick("every subset of <= 3 class keys, plus the complete chain {A, A$B, A$B$C, A$B$C$D}", "every subset of <= 3 class keys, plus every 4-subset of the first seven keys");
+		Universe { alpha: a, masks, sets_rule: rule.into(), chunk: 128, depth: max_depth }
+	};
+	let shared = Universe::all_subsets(Alphabet::with_keys("shared target names N=2", 2, KEYS_SHARED.to_vec(), KINDS_BASE, None), 256, max_depth);
+	// added universes
+	use Kind::*;
+	let deep2 = Universe::all_subsets(Alphabet::with_keys("depth 0..4 N=2", 2, KEYS_DEEP.to_vec(), &[Absent, Simple, Extended, Identity, Deep, DollarPkg, TrailDollar], DOC), 256, max_depth);
+	let deep3 = {
+		let kinds: &[Kind] = ctx.tier.pick(&[Simple, Extended, Identity], &[Absent, Simple, Extended, Identity]);
+		Universe::all_subsets(Alphabet::with_keys("depth 0..4 N=3", 3, KEYS_DEEP.to_vec(), kinds, DOC), 128, max_depth)
+	};
+	let packages = {
+		let a = Alphabet::with_keys("packages N=2", 2, KEYS_PACKAGES.to_vec(), &[Absent, Simple, Extended, Identity, Deep, DollarPkg], DOC);
+		if thorough { Universe::all_subsets(a, 256, max_depth) } else { Universe::subsets_up_to(a, 4, 256, max_depth) }
+	};
+	let packages3 = Universe::subsets_up_to(Alphabet::with_keys("packages N=3", 3, KEYS_PACKAGES.to_vec(), &[Simple, Identity, Deep], None), ctx.tier.pick(3, 4), 128, max_depth);
+	let edge = Universe::all_subsets(Alphabet::with_keys("unsplittable $ N=2", 2, KEYS_EDGE.to_vec(), &[Absent, Simple, Extended, TrailDollar], None), 256, max_depth);
+	let cross = Universe::all_subsets(Alphabet::with_keys("crossing names N=2", 2, KEYS_CROSS.to_vec(), &[Absent, Simple, Identity, Swap], DOC), 256, max_depth);
+	let four = Universe::all_subsets(Alphabet::with_keys("N=4", 4, vec![("A", "Aa"), ("A$B", "Bb"), ("A$B$C", "Cc"), ("p/A", "q/Pa"), ("p/A$B", "Pb")], &[Simple, Deep], DOC), 64, ctx.tier.pick(2, 3));
+	let mut universes = vec![base2, base3, shared, deep2, deep3, packages, packages3, edge, cross, four];
+	if let Some(o) = &only {
+		universes.retain(|u| u.alpha.label.contains(o.as_str()));
 	}
+	for u in &universes {
+		if timing { eprintln!("universe {:?}: {} sets of present classes, {} initial states", u.alpha.label, u.masks.len(), u.init_states()); }
+	}
+	let g = if timing {
+		// one universe after the other, to see where the time goes
+		let mut total = GraphTotals { stats: Stats::new(), init_states: 0, states: 0, successors: 0, max_depth: 0 };
+		for u in &universes {
+			let t0 = ctx.elapsed_s();
+			let g = run_graph(ctx, std::slice::from_ref(u));
+			eprintln!("universe {:?}: {} states, {} evaluations, {:.1}s", u.alpha.label, g.states, g.stats.evaluations, ctx.elapsed_s() - t0);
+			total = GraphTotals { stats: total.stats.merge(g.stats), init_states: total.init_states + g.init_states, states: total.states + g.states, successors: total.successors + g.successors, max_depth: total.max_depth.max(g.max_depth) };
+		}
+		total
+	} else {
+		run_graph(ctx, &universes)
+	};
+	if timing { eprintln!("graph done at {:.1}s", ctx.elapsed_s()); }
+
+	let mut used: Vec<String> = universes.iter().flat_map(|u| u.alpha.names()).collect();
 	used.sort();
 	used.dedup();
-	let helper_len = ctx.tier.pick(7, 9);
+	let helper_len = ctx.tier.pick(8, 10);
 	let helpers = run_helpers(ctx, helper_len, &used);
-	if std::env::var_os("C11_TIMING").is_some() { eprintln!("helpers done at {:.1}s", ctx.elapsed_s()); }
-	let probes = run_probes(ctx, &alphas[0], ctx.tier.pick(4, 5));
+	if timing { eprintln!("helpers done at {:.1}s", ctx.elapsed_s()); }
+	let mut probes = Stats::new();
+	for u in &universes {
+		if ["base N=2", "depth 0..4 N=3", "N=4"].contains(&u.alpha.label) {
+			probes = probes.merge(run_probes(ctx, &u.alpha, if u.alpha.n() == 2 { ctx.tier.pick(4, 5) } else { ctx.tier.pick(2, 3) }));
+		}
+	}
+	if timing { eprintln!("probes done at {:.1}s", ctx.elapsed_s()); }
 
 	let s = &g.stats;
-	let floor_n = ctx.tier.pick(1000, 10000);
-	ctx.floor("extend refused because an outer class is not in the set", 1, s.get("extend:err-missing-outer"));
-	ctx.floor("extensions that rewrote a class nested >= 2 levels deep", floor_n, s.get("extend:rewrote-class-nested>=2"));
-	ctx.floor("extensions that rewrote a class nested >= 3 levels deep", floor_n / 10, s.get("extend:rewrote-class-nested>=3"));
-	ctx.floor("contract(extend(M)) == M exercised on sets where extend changed a name", floor_n, s.get("law:contract-extend-identity-exercised"));
-	ctx.floor("N=2 namespace 1: extensions that changed a name", 100, s.get("N2/ns1:extend-changed"));
-	ctx.floor("N=3 namespace 1: extensions that changed a name", 100, s.get("N3/ns1:extend-changed"));
-	ctx.floor("N=3 namespace 2: extensions that changed a name", 100, s.get("N3/ns2:extend-changed"));
-	ctx.floor("N=2 namespace 1: contractions that changed a name", 100, s.get("N2/ns1:contract-changed"));
-	ctx.floor("N=3 namespace 1: contractions that changed a name", 100, s.get("N3/ns1:contract-changed"));
-	ctx.floor("N=3 namespace 2: contractions that changed a name", 100, s.get("N3/ns2:contract-changed"));
-	ctx.floor("states reached at depth 3", 1000, s.get("depth3:successor"));
-	ctx.floor("helper sweep: names that split", 100, helpers.get("helpers:split-some"));
-	ctx.floor("helper sweep: names that do not split", 100, helpers.get("helpers:split-none"));
-	for a in &alphas {
-		for r in &a.rejected {
-			ctx.note(format!("N={}: class key {r:?} (or one of its target names) is rejected by duke and was skipped", a.n()));
+	if only.is_none() {
+		let floor_n = ctx.tier.pick(1000, 10000);
+		ctx.floor("extend refused because an outer class is not in the set", 1, s.get("extend:err-missing-outer"));
+		ctx.floor("extensions that rewrote a class nested >= 2 levels deep", floor_n, s.get("extend:rewrote-class-nested>=2"));
+		ctx.floor("extensions that rewrote a class nested >= 3 levels deep", floor_n / 10, s.get("extend:rewrote-class-nested>=3"));
+		ctx.floor("extensions that rewrote a class nested 4 levels deep", floor_n / 10, s.get("extend:rewrote-class-nested>=4"));
+		ctx.floor("contract(extend(M)) == M exercised on sets where extend changed a name", floor_n, s.get("law:contract-extend-identity-exercised"));
+		for (n, idx) in [(2, 1), (3, 1), (3, 2), (4, 1), (4, 2), (4, 3)] {
+			ctx.floor(&format!("N={n} namespace {idx}: extensions that changed a name"), 100, s.get(&format!("N{n}/ns{idx}:extend-changed")));
+			ctx.floor(&format!("N={n} namespace {idx}: contractions that changed a name"), 100, s.get(&format!("N{n}/ns{idx}:contract-changed")));
+		}
+		ctx.floor("states reached at depth 3", 1000, s.get("depth3:successor"));
+		for u in &universes {
+			let l = u.alpha.label;
+			ctx.floor(&format!("universe {l:?}: extensions that changed a name"), 10, s.get(&format!("{l}/extend:ok-changed")) + s.get(&format!("{l}/extend:ok-changed-statement-silent-case")));
+			ctx.floor(&format!("universe {l:?}: contractions that changed a name"), 10, s.get(&format!("{l}/contract:ok-changed")));
+		}
+		ctx.floor("contractions that cut the nested name of a class whose source name is top-level", 100, s.get("contract:cut-nested-name-of-top-level-source"));
+		ctx.floor("contractions that cut a name nested >= 2 levels", 100, s.get("contract:cut-name-nested>=2"));
+		ctx.floor("contractions that kept a name whose only `$` is in a package section", 100, s.get("contract:kept-name-with-dollar-in-package-only"));
+		ctx.floor("contractions that kept a name whose `$` has an empty side", 100, s.get("contract:kept-name-with-unsplittable-dollar"));
+		ctx.floor("contractions that cut a name with a multi-byte character", 100, s.get("contract:cut-name-with-multibyte-character"));
+		ctx.floor("extensions that rewrote a name with a multi-byte character", 100, s.get("extend:rewrote-name-with-multibyte-character"));
+		ctx.floor("extensions through an outer class that keeps its source name", 100, s.get("extend:through-outer-that-keeps-its-source-name"));
+		ctx.floor("extensions of a class named like its own source simple name", 100, s.get("extend:class-named-like-its-source-simple-name"));
+		ctx.floor("extensions of a class named like its whole source name", 100, s.get("extend:class-named-like-its-whole-source-name"));
+		ctx.floor("extensions that rewrote a class nested >= 2 levels in a package", 100, s.get("extend:rewrote-packaged-class-nested>=2"));
+		ctx.floor("extensions that rewrote a class whose source package contains `$`", 100, s.get("extend:rewrote-class-with-dollar-in-source-package"));
+		ctx.floor("extensions that kept a top-level class with `$` in one of its names", 100, s.get("extend:kept-top-level-class-with-dollar-in-a-name"));
+		ctx.floor("extensions on a set that has a comment of its own", 100, s.get("extend:ok-on-set-with-comment"));
+		ctx.floor("contractions on a set that has a comment of its own", 100, s.get("contract:ok-on-set-with-comment"));
+		ctx.floor("initial states re-run with rotated insertion order", 1000, s.get("order:same-result-rotated"));
+		ctx.floor("helper sweep: names that split", 100, helpers.get("helpers:split-some"));
+		ctx.floor("helper sweep: names with a multi-byte character that split", 100, helpers.get("helpers:split-some-with-multibyte-character"));
+		ctx.floor("helper sweep: names that do not split", 100, helpers.get("helpers:split-none"));
+	}
+	for u in &universes {
+		for r in &u.alpha.rejected {
+			ctx.note(format!("universe {:?}: class key {r:?} (or one of its target names) is rejected by duke and was skipped", u.alpha.label));
 		}
 	}
 
@@ -810,6 +1061,8 @@ fn main() {
 	let mut outcomes = s.outcomes.clone();
 	outcomes.extend(helpers.outcomes.clone());
 	outcomes.extend(probes.outcomes.clone());
+	let by_label = |l: &str| universes.iter().find(|u| u.alpha.label == l);
+	let old_style = |l: &str, idx: &[usize]| by_label(l).map(|u| json!({"namespaces": u.alpha.ns, "present_class_sets": u.sets_rule, "present_class_set_count": u.masks.len(), "acted_on_namespace_indices": idx}));
 	let coverage = json!({
 		"states": g.states,
 		"init_states": g.init_states,
@@ -819,18 +1072,31 @@ fn main() {
 		"max_depth": g.max_depth.saturating_sub(1),
 		"evaluations": s.evaluations + helpers.evaluations + probes.evaluations,
 		"distinct_nontrivial": s.distinct.len(),
-		"rule": "a state is (depth, mapping set); a transition rebuilds a real quill Mappings from the state, calls the real extend_inner_class_names / contract_inner_class_names for one non-first namespace and projects the result, which is judged against the reference of the statement; transitions = (state, action) pairs executed (failed calls have no successor). evaluations additionally count the reversed-insertion-order run at depth 0, the contract run of the inverse law, the helper sweep and the out-of-domain probes. distinct_nontrivial = distinct (action, result) pairs where the action changed at least one class name",
+		"rule": "a state is (depth, mapping set); a transition rebuilds a real quill Mappings from the state, calls the real extend_inner_class_names / contract_inner_class_names for one non-first namespace and projects the result, which is judged against the reference of the statement; transitions = (state, action) pairs executed (failed calls have no successor). evaluations additionally count the runs with reversed and rotated insertion order at depth 0, the contract run of the inverse law, the helper sweep and the out-of-domain probes. distinct_nontrivial = distinct (action, result) pairs where the action changed at least one class name",
 		"exhaustive": true,
 		"samples": samples,
 		"outcomes": outcomes,
 		"bounds": {
-			"class_keys": alphas[0].keys.iter().map(|(k, _)| k.clone()).collect::<Vec<_>>(),
-			"target_kinds_per_class_and_namespace": KIND_NAMES,
-			"N=2": {"namespaces": alphas[0].ns, "present_class_sets": "every subset of the class keys", "present_class_set_count": masks2.len(), "acted_on_namespace_indices": [1]},
-			"N=3": {"namespaces": alphas[1].ns, "present_class_sets": rule3, "present_class_set_count": masks3.len(), "acted_on_namespace_indices": [1, 2]},
-			"N=2, shared target names": {"class_keys_and_simple_target_bases": KEYS_SHARED, "present_class_sets": "every subset", "present_class_set_count": masks_shared.len(), "why": "several classes carry the same simple target name; the target namespace need not be injective"},
+			"class_keys": by_label("base N=2").map(|u| u.alpha.keys.iter().map(|(k, _)| k.clone()).collect::<Vec<_>>()),
+			"target_kinds_per_class_and_namespace": KINDS_BASE.iter().map(|k| format!("{k:?}")).collect::<Vec<_>>(),
+			"N=2": old_style("base N=2", &[1]),
+			"N=3": old_style("base N=3", &[1, 2]),
+			"N=2, shared target names": by_label("shared target names N=2").map(|u| json!({"class_keys_and_simple_target_bases": KEYS_SHARED, "present_class_sets": "every subset", "present_class_set_count": u.masks.len(), "why": "several classes carry the same simple target name; the target namespace need not be injective"})),
+			"universes": universes.iter().map(|u| json!({
+				"label": u.alpha.label,
+				"namespaces": u.alpha.ns,
+				"acted_on_namespace_indices": (1..u.alpha.n()).collect::<Vec<_>>(),
+				"class_keys_and_simple_target_bases": u.alpha.keys,
+				"target_kinds_per_class_and_namespace": u.alpha.kinds.iter().map(|k| format!("{k:?}")).collect::<Vec<_>>(),
+				"comment_of_the_set": u.alpha.doc.is_some(),
+				"present_class_sets": u.sets_rule,
+				"present_class_set_count": u.masks.len(),
+				"initial_states": u.init_states(),
+				"bfs_depth": u.depth,
+			})).collect::<Vec<_>>(),
 			"bfs_depth": max_depth,
 			"actions": ["extend:<ns>", "contract:<ns>"],
+			"insertion_orders_at_depth_0": format!("sorted, reversed, sorted rotated by 1..{MAX_ROTATIONS}"),
 			"helper_alphabet": HELPER_ALPHABET.iter().map(|c| c.to_string()).collect::<Vec<_>>(),
 			"helper_max_len": helper_len,
 			"names_of_the_mapping_alphabet_checked_through_helpers": used.len(),
@@ -840,9 +1106,11 @@ fn main() {
 	});
 	ctx.finish(coverage, &[
 		"the statement is read as: a class is nested iff its *source* name splits at the last `$` of its last `/`-section with both sides non-empty",
-		"where the statement is silent (nested class or outer class without a name in the namespace; a nested class's name that already contains `$`; a top-level class's `$`-name under contraction) every behaviour is accepted except a panic or a change anywhere else",
+		"contraction is read as: every name in the chosen namespace that splits that way keeps only the part after that `$`, whatever the class is called in the first namespace; a name that does not split stays whole",
+		"where the statement is silent (nested class or outer class without a name in the namespace; whether 'its own simple name' of a nested class whose name already contains `$` is that name or its innermost part) every behaviour is accepted except a panic or a change anywhere else",
 		"acting on the first namespace or an unknown namespace is outside the statement; explored for absence of panics only",
 		"members and comments are fixed per class key (not enumerated); depth is part of the state key so counts do not depend on scheduling",
+		"every universe is explored completely (all listed sets of present classes x all target kinds per class and namespace x all action sequences up to its depth); the universes themselves are a choice",
 		"stateright's BFS visits every reachable state (its exhaustiveness is trusted)",
 	]);
 }
@@ -857,7 +1125,8 @@ fn replay(ctx: &'static Ctx, path: &std::path::Path) -> ! {
 	let act_line = body.lines().find(|l| l.starts_with("action=")).unwrap_or_else(|| vcore::machinery_fail("no action in replay"));
 	let act = Act::parse(&act_line["action=".len()..]).unwrap_or_else(|| vcore::machinery_fail("bad action"));
 	let text = body.split_once("state:\n").and_then(|(_, r)| r.split_once("--end-state--")).map(|(t, _)| t).unwrap_or_else(|| vcore::machinery_fail("no state in replay"));
-	let set = tiny::parse(text).unwrap_or_else(|e| vcore::machinery_fail(&format!("cannot parse the state: {e:?}")));
+	let mut set = tiny::parse(text).unwrap_or_else(|e| vcore::machinery_fail(&format!("cannot parse the state: {e:?}")));
+	set.doc = body.lines().take_while(|l| !l.starts_with("state:")).find_map(|l| l.strip_prefix("set-comment=")).map(tiny::unescape);
 	if let Some(ns_name) = body.strip_prefix("namespace=").and_then(|r| r.lines().next()) {
 		// an out-of-domain probe: only "no panic"
 		let opn = match act.op { Op::Extend => "extend", Op::Contract => "contract" };
